@@ -753,3 +753,76 @@ def records_count_rows(crate, B=2):
     r = P.finish(ex, res, need)
     r.queries, r.solver_s = tq, ts
     return r
+
+
+def disk_used_sum(crate, B=2):
+    """C15: Storage::disk_used = disk_used of the active blob (if any) + disk_used of every closed blob, each exactly once."""
+    res = P.ObResult("disk_used_sum[B<=%d]" % B)
+    fn = crate.method("Storage", "disk_used")
+    res.functions = ["Storage::disk_used (async body)"]
+    res.bounds = "0..%d closed blobs (one run per count), active blob present or not, per-blob sizes < 2^40" % B
+    tq = ts = 0
+    for n in range(B + 1):
+        ex = P.mk_executor(crate, cap=B + 2, loop_bound=B + 3, inline=[])
+        st = State()
+        sz = [z3.BitVec("blob_%d_disk" % i, 64) for i in range(n + 1)]
+        for c in sz:
+            st.pc.append(z3.ULT(c, BV64(1 << 40)))
+        cells = []
+        for i in range(n + 1):
+            b = Obj("blob::core::Blob<K>"); b.fields[("ghost", "n")] = Sym(BV64(i), "u64")
+            cells.append(st.new_cell(b))
+        safe = Obj("storage::core::Safe<K>")
+        has_active = z3.Bool("has_active")
+        ab = Obj("std::option::Option<Box<async_lock::RwLock<blob::core::Blob<K>>>>")
+        ab.discr = Sym(z3.If(has_active, BV64(1), BV64(0)), "isize")
+        lock = Obj("async_lock::RwLock<blob::core::Blob<K>>")
+        lock.fields[(None, 7000)] = st.mem[cells[n]]
+        ab.fields[("Some", 0)] = Ref(st.new_cell(lock), (), False, "Box<async_lock::RwLock<blob::core::Blob<K>>>")
+        safe.fields[(None, crate.field_index("Safe", "active_blob"))] = ab
+        slock = Obj("tokio::sync::RwLock<storage::core::Safe<K>>")
+        slock.fields[(None, 7000)] = safe
+        inner = Obj("storage::core::Inner<K>")
+        inner.fields[(None, crate.field_index("Inner", "safe"))] = slock
+        arc = Obj("std::sync::Arc<storage::core::Inner<K>>")
+        arc.fields[(None, 7001)] = inner
+        storage = Obj("storage::core::Storage<K>")
+        storage.fields[(None, crate.field_index("Storage", "inner"))] = arc
+        sc = st.new_cell(storage)
+
+        def call_hook(ex_, st_, cname, args, dty, _n=n, _cells=cells):
+            if cname == "HierarchicalFilters::iter":
+                slots = [(z3.BoolVal(True), Ref(c, (), False, "&blob::core::Blob<K>")) for c in _cells[:_n]]
+                return [(IT.IterV(slots, "&Blob<K>", True, BV64(_n)), None)]
+            if cname == "Blob::disk_used":
+                b = S.deref_val(ex_, st_, args[0])
+                g = b.fields.get(("ghost", "n")) if isinstance(b, Obj) else None
+                if g is None:
+                    raise Unsupported("blob without identity")
+                i = z3.simplify(g.t).as_long()
+                st_.events.append(("call", cname, [i], None))
+                return [(Sym(sz[i], "u64"), None)]
+            return None
+        ex.call_hook = call_hook
+        outs = P.drive_async(ex, st, fn, [Ref(sc, (), False, "&storage::core::Storage<K>")])
+        res.paths += len(outs)
+        for o in outs:
+            if o.status in ("infeasible", "unwind"):
+                continue
+            if o.status != "returned":
+                if not P.prove(ex, res, o, z3.BoolVal(False), "no panic (%s)" % o.note):
+                    return P.finish(ex, res, [])
+                continue
+            ready, v = P.poll_payload(ex, o, o.result)
+            tot = BV64(0)
+            for i in range(n):
+                tot = tot + sz[i]
+            tot = tot + z3.If(has_active, sz[n], BV64(0))
+            if not P.prove(ex, res, o, v.t == tot, "disk_used = active blob + every closed blob, once each"):
+                return P.finish(ex, res, [])
+            P.cover(ex, res, o, has_active, "with an active blob, %d closed" % n)
+            P.cover(ex, res, o, z3.Not(has_active), "without an active blob, %d closed" % n)
+        tq += ex.queries; ts += ex.solver_s
+    r = P.finish(ex, res, ["with an active blob, %d closed" % B, "without an active blob, 0 closed"])
+    r.queries, r.solver_s = tq, ts
+    return r
